@@ -45,7 +45,7 @@ def _xatoms(g, node, x):
     out = []
     for test, pol, br in g.dominating_conditions(node):
         if pol in ("true", "false"):
-            for t, p in atoms_of(test, pol == "true", lambda e, br=br: x.text(e, br)):
+            for t, p in atoms_of(x.expand(test, br), pol == "true"):
                 out.append((t, p, br))
     return out
 
@@ -70,6 +70,62 @@ def _attr_pair_tests(prog, func, strict_param=None):
                 if any(re.search(r"(?<![\w.])%s\.%s\b" % (re.escape(o), re.escape(a)), txt) for o in others):
                     out.add(a)
     return out
+
+
+def sib2_section_rule(prog, rep, rule="SIB-2"):
+    """BaseSection.merge_check visits every pair merge() visits, whatever `strict` is (shared with C06, where it is the
+    obligation of the MERGE-REC contract)."""
+    mc = prog.func("section.BaseSection.merge_check")
+    rep.saw_function(mc)
+    me, src = mc.params[0], mc.params[1]
+    g = build_cfg(mc)
+    x = Expander(mc, g)
+    loops = [n for n in g.nodes if n.kind == "for" and x.text(n.ast.iter, n) == src]
+    rep.check(len(loops) == 1, rule, "Section.merge_check iterates the source", "for obj in %s" % src,
+              "merge_check does not iterate the source Section once", mc.where, witness="conflicts below the top level are not found")
+    for lp in loops:
+        child = "EACH(%s)" % src
+        mine = "%s.contains(%s)" % (me, child)
+        escapes = [n for n in ast.walk(lp.ast) if isinstance(n, (ast.Return, ast.Break))]
+        rep.check(not escapes, rule, "Section.merge_check loop has no early exit", "ok",
+                  "the checking loop leaves early (%s): later siblings are never checked although merge handles them"
+                  % ", ".join(type(e).__name__.lower() for e in escapes), where(mc, escapes[0]) if escapes else mc.where,
+                  witness="strict merge where a source-only child precedes the conflicting child: ValueError after partial merge")
+        recs = [e for e in effect_calls(prog, mc, lambda c: isinstance(c.func, ast.Attribute) and c.func.attr == "merge_check")
+                if g.dominates(lp, e.node) and e.node.id != lp.id]
+        good = len(recs) == 1 and unparse(recs[0].call.func.value) == mine and [unparse(a0) for a0 in recs[0].call.args][:1] == [child]
+        rep.check(good, rule, "Section.merge_check recurses into the counterpart", "self.contains(obj).merge_check(obj, strict)",
+                  "merge_check does not recurse into self.contains(<child>) with the child: %s" % [unparse(e.call)[:80] for e in recs], where(mc, lp.ast),
+                  witness="a conflict two levels down raises after the first level was merged")
+        if good:
+            rn = recs[0].node
+
+            def clm(leaf, br, x=x, mine=mine):
+                t = x.text(leaf, br)
+                if t == "%s is None" % mine:
+                    return "NONE"
+                if t == mine:
+                    return "SOME"
+                return None
+
+            def edge_ok(s0, kind, dst, rn=rn):
+                if dst.id == rn.id:
+                    return True
+                return s0.kind == "branch" and kind in ("true", "false") and \
+                    entails(s0.ast.test, kind == "true", lambda lf, s0=s0: clm(lf, s0), lambda a0: a0["NONE"] or not a0["SOME"], ["NONE", "SOME"])
+            body_entry = [m for k, m in lp.succ if k == "iter"]
+            skipped = any(reach_avoiding(g, m, lp, edge_ok, skip_kinds=("exc",)) for m in body_entry if m.id != rn.id)
+            rep.check(not skipped, rule, "recursion guarded only by `mine is not None`", "every iteration that skips the recursion knows there is no counterpart",
+                      "an iteration of the checking loop can skip the recursive check although a counterpart exists", where(mc, lp.ast),
+                      witness="strict merge: a conflict in a child that has a counterpart is not found before merging starts")
+    # the checking loop is reached on every normal path (no early return before it, e.g. for strict=False)
+    for lp in loops:
+        skipped = reach_avoiding(g, g.entry, g.exit, lambda s0, k0, d0, lp=lp: d0.id == lp.id, skip_kinds=("exc",))
+        rep.check(not skipped, rule, "Section.merge_check always walks the children", "the loop over the source lies on every normal path",
+                  "merge_check can return without walking the children of the source (e.g. when strict is off): conflicts and "
+                  "unconvertible values below are found only after merging has started", mc.where,
+                  witness="non-strict merge (or link resolution) with an unconvertible Property value in a shared sub-Section: ValueError after partial merge")
+    return mc
 
 
 def run(prog, rep):
@@ -125,49 +181,8 @@ def run(prog, rep):
                       "mine.merge_check(obj, strict) - no return/break/continue in the loop; BaseProperty.merge_check tests "
                       "under strict {dtype} + every attribute BaseProperty.merge copies; BaseSection.merge_check tests "
                       "{definition, reference}")
-    mc = prog.func("section.BaseSection.merge_check")
-    rep.saw_function(mc)
+    mc = sib2_section_rule(prog, rep, "SIB-2")
     me, src = mc.params[0], mc.params[1]
-    g = build_cfg(mc)
-    x = Expander(mc, g)
-    loops = [n for n in g.nodes if n.kind == "for" and x.text(n.ast.iter, n) == src]
-    rep.check(len(loops) == 1, "SIB-2", "Section.merge_check iterates the source", "for obj in %s" % src,
-              "merge_check does not iterate the source Section once", mc.where, witness="conflicts below the top level are not found")
-    for lp in loops:
-        child = "EACH(%s)" % src
-        mine = "%s.contains(%s)" % (me, child)
-        escapes = [n for n in ast.walk(lp.ast) if isinstance(n, (ast.Return, ast.Break))]
-        rep.check(not escapes, "SIB-2", "Section.merge_check loop has no early exit", "ok",
-                  "the checking loop leaves early (%s): later siblings are never checked although merge handles them"
-                  % ", ".join(type(e).__name__.lower() for e in escapes), where(mc, escapes[0]) if escapes else mc.where,
-                  witness="strict merge where a source-only child precedes the conflicting child: ValueError after partial merge")
-        recs = [e for e in effect_calls(prog, mc, lambda c: isinstance(c.func, ast.Attribute) and c.func.attr == "merge_check")
-                if g.dominates(lp, e.node) and e.node.id != lp.id]
-        good = len(recs) == 1 and unparse(recs[0].call.func.value) == mine and [unparse(a0) for a0 in recs[0].call.args][:1] == [child]
-        rep.check(good, "SIB-2", "Section.merge_check recurses into the counterpart", "self.contains(obj).merge_check(obj, strict)",
-                  "merge_check does not recurse into self.contains(<child>) with the child: %s" % [unparse(e.call)[:80] for e in recs], where(mc, lp.ast),
-                  witness="a conflict two levels down raises after the first level was merged")
-        if good:
-            rn = recs[0].node
-
-            def clm(leaf, br, x=x, mine=mine):
-                t = x.text(leaf, br)
-                if t == "%s is None" % mine:
-                    return "NONE"
-                if t == mine:
-                    return "SOME"
-                return None
-
-            def edge_ok(s0, kind, dst, rn=rn):
-                if dst.id == rn.id:
-                    return True
-                return s0.kind == "branch" and kind in ("true", "false") and \
-                    entails(s0.ast.test, kind == "true", lambda lf, s0=s0: clm(lf, s0), lambda a0: a0["NONE"] or not a0["SOME"], ["NONE", "SOME"])
-            body_entry = [m for k, m in lp.succ if k == "iter"]
-            skipped = any(reach_avoiding(g, m, lp, edge_ok, skip_kinds=("exc",)) for m in body_entry if m.id != rn.id)
-            rep.check(not skipped, "SIB-2", "recursion guarded only by `mine is not None`", "every iteration that skips the recursion knows there is no counterpart",
-                      "an iteration of the checking loop can skip the recursive check although a counterpart exists", where(mc, lp.ast),
-                      witness="strict merge: a conflict in a child that has a counterpart is not found before merging starts")
     sec_tested = _attr_pair_tests(prog, mc)
     rep.check({"definition", "reference"} <= sec_tested, "SIB-2", "Section.merge_check tests definition and reference", str(sorted(sec_tested)),
               "Section.merge_check no longer tests %s" % sorted({"definition", "reference"} - sec_tested), mc.where,
@@ -189,6 +204,25 @@ def run(prog, rep):
     rep.check(need <= tested, "SIB-2", "Property.merge_check tests every copied attribute + dtype", str(sorted(tested)),
               "Property.merge_check does not test %s under strict although merge handles them" % sorted(need - tested), pc.where,
               witness="strict merge with conflicting %s does not raise" % sorted(need - tested))
+    # unit, dtype and uncertainty are compared as they are (no normalisation: mV and MV are different units)
+    pgx = build_cfg(pc)
+    exact = set()
+    for h in private_closure(pc):
+        hg = build_cfg(h)
+        hx = Expander(h, hg, inline=prog)
+        others = h.params[1:]
+        for n in hg.nodes:
+            if n.kind != "raise":
+                continue
+            for t, p, _ in _xatoms(hg, n, hx):
+                for a0 in ("unit", "dtype", "uncertainty"):
+                    for o in others:
+                        if not p and t in ("%s.%s == %s.%s" % (h.params[0], a0, o, a0), "%s.%s == %s.%s" % (o, a0, h.params[0], a0)):
+                            exact.add(a0)
+    rep.check(exact == set(["unit", "dtype", "uncertainty"]), "SIB-2", "unit, dtype and uncertainty conflicts are decided on the raw values", str(sorted(exact)),
+              "Property.merge_check does not compare %s of source and destination directly (a normalised comparison lets different "
+              "values pass as equal)" % sorted(set(["unit", "dtype", "uncertainty"]) - exact), pc.where,
+              witness="strict merge of a Property in mV with one in MV succeeds and mixes the values")
     # the value convertibility refusal is reachable whatever `strict` is
     pg = build_cfg(pc)
     px = Expander(pc, pg)
@@ -251,7 +285,10 @@ def run(prog, rep):
                     and isinstance(n.comparators[0], ast.Attribute) and n.left.attr == n.comparators[0].attr:
                 attrs.add(n.left.attr)
         if not attrs:
-            raise AnalysisError("cannot extract the attributes compared by %s" % qn)
+            rep.fail("SEL-1", "%s|indirect" % f.short, "%s no longer compares attributes of the two objects directly (it delegates the "
+                     "decision): the selector cannot be shown to agree with the name test of SmartList.append" % f.short, f.where,
+                     witness="a child that merge() considers missing although append() refuses its name (or the reverse): KeyError after a partial merge")
+            continue
         rep.check(attrs == {"name"}, "SEL-1", "%s|%s" % (f.short, "+".join(sorted(attrs))), "name only",
                   "%s matches %s children by %s but SmartList.append refuses on the name alone: a source child with a "
                   "used name and another type is neither merged nor addable" % (f.short, kind, sorted(attrs)), f.where,
